@@ -229,8 +229,12 @@ func init() {
 		if block, _ := clearsign.Decode(input); block != nil {
 			signer := "-"
 			if kr != nil {
-				if e, err := openpgp.CheckDetachedSignature(*kr, bytes.NewReader(block.Bytes), block.ArmoredSignature.Body); err == nil && e != nil {
-					signer = entityID(e)
+				// "the signature verifies": the armored signature block, read to its end (armor checksum included),
+				// holds a signature by a key of the keyring over the signed text
+				if sig, rerr := ioutil.ReadAll(block.ArmoredSignature.Body); rerr == nil {
+					if e, err := openpgp.CheckDetachedSignature(*kr, bytes.NewReader(block.Bytes), bytes.NewReader(sig)); err == nil && e != nil {
+						signer = entityID(e)
+					}
 				}
 			}
 			oracle = "decoded " + hx(string(block.Bytes)) + " " + signer
